@@ -12,7 +12,7 @@
    show that the hypotheses never exclude a state or a store answer. *)
 From Coq Require Import List NArith ZArith Bool Lia.
 From Verif Require Import Locks.Model Locks.ProofsBase Locks.ProofsInv Locks.ProofsCommit Locks.ProofsLock
-  Locks.ProofsLockAgg Locks.ProofsLockAll Locks.ProofsMain Locks.ProofsKA Locks.ProofsSched.
+  Locks.ProofsLockAgg Locks.ProofsLockAll Locks.ProofsMain Locks.ProofsKA Locks.ProofsSched Locks.ProofsPrim.
 Import ListNotations.
 Open Scope N_scope.
 
@@ -216,6 +216,25 @@ Proof.
     inversion Ha; subst a; simpl in Hf; intuition;
     match goal with H : (_, _) = (_, _) |- _ => inversion H; subst; vm_compute; intros; discriminate end.
 Qed.
+
+(* the committer's primary is never a "ghost": under the caller contract (incl. [ts_contract]) the primary key is
+   always a key the client tracks as locked — flagged, or a current aggressive-locking key of the attempt that
+   chose it (oracle P of the check; seeded change C02-6 keeps a never-locked primary after a single-key failure) *)
+Theorem C06_primary_is_a_tracked_key :
+  forall (p : bool) (evs : list ev), wf_run_ts (init p) evs ->
+  let s := run (init p) evs in
+  forall k, primary s = Some k ->
+    In k (flags s) \/ exists a, agg s = Some a /\ aprim a = true /\ In k (keys_of (cur a)).
+Proof. exact primary_is_tracked. Qed.
+Print Assumptions C06_primary_is_a_tracked_key.
+
+Example C06_primary_tracked_examples :
+  (let s := run (init true) (firstn 3 keepalive_run) in primary s = Some 1 /\ flags s = [] /\ in_cur s 1 = true) /\
+  (let s := run (init true) (firstn 6 keepalive_run) in primary s = Some 2 /\ flags s = [2]) /\
+  (* a first lock that fails outright leaves no primary *)
+  primary (run (init true) [ELock [1] false false false 10 (mkLO false false [] [] 0 (Some FConflict))]) = None.
+Proof. vm_compute. auto 10. Qed.
+
 
 (* batches are not regions: the keys of one call may travel in several requests even inside one region (batch
    size limit); the store's answer is any subset of the requested keys locked before the failing batch.  A
